@@ -16,6 +16,8 @@ mod rel;
 mod relspec;
 mod sat;
 mod total;
+mod typed;
+mod typeddoc;
 mod wrap;
 mod util;
 
@@ -53,6 +55,12 @@ fn dispatch(op: &str, args: &[&str]) -> Option<Resp> {
     if let Some(r) = codec::handle(op, args) {
         return Some(r);
     }
+    if let Some(r) = typeddoc::handle(op, args) {
+        return Some(r);
+    }
+    if let Some(r) = typed::handle(op, args) {
+        return Some(r);
+    }
     if let Some(r) = derive::handle(op, args) {
         return Some(r);
     }
@@ -74,10 +82,12 @@ fn dispatch(op: &str, args: &[&str]) -> Option<Resp> {
 fn generate(prop: &str, tier: &str, seed: u64, out: &mut util::Out) {
     match prop {
         "C12" => sat::generate_c12(tier, seed, out),
+        "C15" => typed::generate_c15(tier, seed, out),
         "C16" => derive::generate_c16(tier, seed, out),
         "C17" => cpr::generate_c17(tier, seed, out),
         "C18" => codec::generate_c18(tier, seed, out),
         "C19" => pgp::generate(tier, seed, out),
+        "C20" => typeddoc::generate_c20(tier, seed, out),
         "C01" => deb::generate_c01(tier, seed, out),
         "C02" => total::generate_c02(tier, seed, out),
         "C03" => deb::generate_c03(tier, seed, out),
